@@ -186,6 +186,84 @@ theorem C03_two_denials_leak :
       ⟨w0, zombieFrom 0, fun k => if k = 1 ∨ k = 2 then some .EACCES else none⟩ {}).1 = .error .fnf := by
   decide
 
+/-! ### … as a TABLE over all modelled methods (characterisation of the code as it is — NOT a finding)
+
+    The property's quantifier refuses ONE access per call ("access k alone is refused"), and `Adm` says so. What if two
+    accesses of one call are refused? For every modelled query: either a concrete two-refusal plan that makes the call
+    leak (a bare builtin exception, or a psutil error carrying another process' pid) — proved here on the model and
+    replayed on the real code by the correspondence (family `two_denials`) — or the bounded statement that NO pair of
+    refused accesses (indices < 12: longer than every trace on that world), on an alive or a zombie process, makes the
+    call leak on the two-process world `w0` (decided exhaustively; the correspondence enumerates the same pairs on the
+    real code and requires model = implementation). -/
+
+/-- two refused accesses (indices i and j, EACCES) of a call on a process that is `life` throughout -/
+def twoDeny (w : World) (life : WS) (i j : Nat) : Ctx :=
+  ⟨w, fun _ => life, fun k => if k = i ∨ k = j then some .EACCES else none⟩
+
+/-- outcome of the named call on the world's object under a context (none: not modelled) -/
+def runOf (b : Bool) (w : World) (nm : String) (c : Ctx) : Option (Except PyExc Val) :=
+  (Fe.method (goodCfg b) w.obj nm).map (fun m => (m c {}).1)
+
+def OKopt (pid : Nat) : Option (Except PyExc Val) → Prop
+  | some r => OK pid r
+  | none => False
+
+instance (pid : Nat) (r : Option (Except PyExc Val)) : Decidable (OKopt pid r) := by
+  unfold OKopt; split <;> infer_instance
+
+/-- PIDs 50 ← 101 ← 105; the object is 101 (it has the child 105) -/
+def wc : World :=
+  { target := 101
+    procs := [⟨50, 0, 10, false, false, [(50, false)], [], false⟩,
+              ⟨101, 50, 50, false, false, [(101, false)], [], false⟩,
+              ⟨105, 101, 100, false, false, [(105, false)], [], false⟩] }
+
+/-- (method, world, state of the process, the two refused access indices, what leaks) -/
+def twoDenialLeaks : List (String × World × WS × Nat × Nat × PyExc) :=
+  [("exe", w0, .zombie, 1, 2, .fnf),            -- lexists(/proc/pid) and the zombie probe refused: bare FileNotFoundError
+   ("cwd", w0, .zombie, 1, 2, .fnf),
+   ("parent", w0, .alive, 5, 6, .ad 101),       -- Process(ppid) swallows one refusal, parent.create_time() is refused again
+   ("parents", w0, .alive, 5, 6, .ad 101),
+   ("children", wc, .alive, 9, 11, .ad 105),    -- the same on a child: AccessDenied(child) is not in the except tuple
+   ("children_recursive", wc, .alive, 9, 11, .ad 105)]
+
+/-- the modelled queries for which no pair of refusals leaks on `w0` (bounded, exhaustive) -/
+def twoDenialBounded : List String :=
+  ["pid", "ppid", "name", "cmdline", "status", "username", "create_time", "nice", "uids", "gids", "terminal", "num_fds",
+   "io_counters", "ionice", "cpu_affinity", "cpu_num", "environ", "num_ctx_switches", "num_threads", "threads",
+   "cpu_times", "cpu_percent", "memory_info", "memory_full_info", "memory_percent", "memory_maps", "open_files",
+   "net_connections", "connections", "is_running", "rlimit"]
+
+def LeakHolds (b : Bool) (x : String × World × WS × Nat × Nat × PyExc) : Prop :=
+  runOf b x.2.1 x.1 (twoDeny x.2.1 x.2.2.1 x.2.2.2.1 x.2.2.2.2.1) = some (.error x.2.2.2.2.2) ∧
+    ¬ OK x.2.1.target (.error x.2.2.2.2.2 : Except PyExc Val)
+
+def BoundedSafe (b : Bool) (w : World) (nm : String) (B : Nat) : Prop :=
+  ∀ life ∈ [WS.alive, WS.zombie], ∀ i < B, ∀ j < B, OKopt w.target (runOf b w nm (twoDeny w life i j))
+
+instance (b : Bool) (x : String × World × WS × Nat × Nat × PyExc) : Decidable (LeakHolds b x) := by
+  unfold LeakHolds; infer_instance
+instance (b : Bool) (w : World) (nm : String) (B : Nat) : Decidable (BoundedSafe b w nm B) := by
+  unfold BoundedSafe; infer_instance
+
+set_option maxRecDepth 100000 in
+/-- each listed plan leaks what the table says, and that is outside `OK` -/
+theorem C03_two_denials_table_leaks (b : Bool) : ∀ x ∈ twoDenialLeaks, LeakHolds b x := by
+  cases b <;> decide +kernel
+
+set_option maxRecDepth 100000 in
+/-- no pair of refused accesses leaks for the other modelled queries, on `w0`, alive or zombie -/
+theorem C03_two_denials_table_bounded (b : Bool) : ∀ nm ∈ twoDenialBounded, BoundedSafe b w0 nm 12 := by
+  cases b <;> decide +kernel
+
+/-- the full-strength side NOT proved: "safe under ANY number of refusals, on every world" for the queries of
+    `twoDenialBounded` (would need the whole triple calculus of Proofs/C03*.lean re-done without `DenyOnce`; the
+    bounded exhaustive statement above + the same enumeration on the real code is what is established) -/
+def C03_multi_denial_safe_Full : Prop :=
+  ∀ nm ∈ twoDenialBounded, ∀ (o : Obj) (c : Ctx) (s : St), Monotone c.ws → (∀ i e, c.deny i = some e → e = .EACCES ∨ e = .EPERM) →
+    (∃ i ∈ c.w.procs, i.pid ≠ c.w.target) → CacheInv s.cache → o.pid ≠ 0 →
+    ∃ m, Fe.method cfg o nm = some m ∧ OK o.pid (m c s).1
+
 /-! ## as_dict / process_iter -/
 
 /-- every name as_dict() accepts is a modelled getter (translator fact `asDictNames`) -/
@@ -459,6 +537,10 @@ theorem C03_all_methods (o : Obj) (h0 : o.pid ≠ 0) :
     List.forall_mem_cons.2 ⟨Or.inr (Or.inr (Or.inr (C03_safe_username o))),
     List.forall_mem_cons.2 ⟨Or.inl (by decide),
     (fun _ h => nomatch h)⟩⟩⟩⟩⟩⟩⟩⟩⟩⟩⟩⟩⟩⟩⟩⟩⟩⟩⟩⟩⟩⟩⟩⟩⟩⟩⟩⟩⟩⟩⟩⟩⟩⟩⟩⟩⟩⟩⟩⟩⟩⟩⟩⟩
+
+/-- the two-denial table (`C03_two_denials_table_leaks` / `_bounded`) is complete: every public name is a non-query, as_dict (policy theorem), or in one of the two lists -/
+theorem C03_two_denials_table_complete : ∀ nm ∈ publicMethods,
+    nm ∈ notQueries ∨ nm ∈ byPolicy ∨ nm ∈ twoDenialLeaks.map (·.1) ∨ nm ∈ twoDenialBounded := by decide
 
 /-! ## the property's four plan shapes are admissible (the theorems cover a superset) -/
 
